@@ -23,7 +23,7 @@ func genC05(t *rapid.T) impCase {
 
 func (g *impCase) describe() string {
 	var sb strings.Builder
-	fmt.Fprintf(&sb, "depth=%d\n", g.Depth)
+	fmt.Fprintf(&sb, "depth=%d remote=%v\n", g.Depth, g.Remote)
 	for i, p := range g.Paths {
 		fmt.Fprintf(&sb, "  [%d] %s imports %v spelled %q\n", i, p, g.Edges[i], g.Spell[i])
 	}
@@ -131,7 +131,7 @@ func checkC05(x *X, g impCase) error {
 }
 
 var c05Prop = Define("C05", "closure",
-	"random import digraphs on 1-7 files in up to 4 directories (chains, diamonds, cycles, self loops, multi-edges, a two-route template), each import spelled in one of six equivalent ways (rooted, ../-relative, ./, zz/../, extension dropped, /./), some files always imported under one alias (as Ns :: Aj), depth limit 0..n, 2-3 completion orders per graph drawn by rapid (with a deepest-pending-first bias) and realised through a gated reader.Reader that releases one ReadHashBranch at a time; oracle: contributions (order and multiplicity of per-file calls appended to a shared endpoint, set of per-file apps) == reference closure (BFS distance < n, DFS pre-order in text order), identical across schedules, no error/panic/stall. Non-trivial: graph has a cycle, a self import, a shared/diamond target or a depth limit cutting a file reachable by two routes of different length; distinct by (graph, schedules); class 'executions' counts (graph, schedule) runs of the real parser.",
+	"random import digraphs on 1-7 files in up to 4 directories (chains, diamonds, cycles, self loops, multi-edges, a two-route template), each import spelled in one of six equivalent ways (rooted, ../-relative, ./, zz/../, extension dropped, /./), some files always imported under one alias (as Ns :: Aj); one graph in four lives in a remote-style repository (//github.com/org/repo/<path>@v1, also spelled in full by some imports) served by the same gated reader with branch v1, depth limit 0..n, 2-3 completion orders per graph drawn by rapid (with a deepest-pending-first bias) and realised through a gated reader.Reader that releases one ReadHashBranch at a time; oracle: contributions (order and multiplicity of per-file calls appended to a shared endpoint, set of per-file apps) == reference closure (BFS distance < n, DFS pre-order in text order), identical across schedules, no error/panic/stall. Non-trivial: graph has a cycle, a self import, a shared/diamond target or a depth limit cutting a file reachable by two routes of different length; distinct by (graph, schedules); class 'executions' counts (graph, schedule) runs of the real parser.",
 	genC05, checkC05)
 
 // exhaustive enumeration of completion orders for one small graph
